@@ -19,6 +19,7 @@
 #include <pistache/tcp.h>
 #include <pistache/transport.h>
 #include <pistache/utils.h>
+#include <pistache/verif_hooks.h>
 
 namespace Pistache::Tcp
 {
@@ -356,6 +357,17 @@ namespace Pistache::Tcp
         else
         {
 #endif /* PISTACHE_USE_SSL */
+#ifdef PISTACHE_VERIF
+            if (Verif::writeHook)
+            {
+                int err = 0;
+                if (!Verif::writeHook(fd, len, &len, &err))
+                {
+                    errno = err;
+                    return -1;
+                }
+            }
+#endif
             bytesWritten = ::send(fd, buffer, len, flags);
 #ifdef PISTACHE_USE_SSL
         }
@@ -382,6 +394,17 @@ namespace Pistache::Tcp
         else
         {
 #endif /* PISTACHE_USE_SSL */
+#ifdef PISTACHE_VERIF
+            if (Verif::writeHook)
+            {
+                int err = 0;
+                if (!Verif::writeHook(fd, len, &len, &err))
+                {
+                    errno = err;
+                    return -1;
+                }
+            }
+#endif
             bytesWritten = ::sendfile(fd, file, &offset, len);
 #ifdef PISTACHE_USE_SSL
         }
